@@ -70,10 +70,11 @@ func TestC13(t *testing.T) {
 		fileCacheModes(r, tmp)
 		realFileCacheRestarts(t, r, tmp)
 		retainingCaches(r)
+		partlyFailingPolls(r)
 		failedStartUps(r)
 		crashPart(t, r, tmp)
 	}
-	r.Require("payloads_checked", "restarts_from_payload", "fileclient_checks", "flush_after_lookup", "flush_after_poll", "flush_on_shutdown",
+	r.Require("polls_with_one_secret_failing", "restarts_on_a_retaining_cache", "payloads_checked", "restarts_from_payload", "fileclient_checks", "flush_after_lookup", "flush_after_poll", "flush_on_shutdown",
 		"fuzz_certainly_valid", "fuzz_certainly_invalid", "fuzz_grey", "cache_write_failures", "parked_write_cases", "crash_points", "io_errors_injected", "steps_with_stale_pinned_secrets", "restarts_from_real_cache_files", "retaining_cache_checks", "failed_start_ups", "failed_initial_cache_writes", "start_ups_with_unreadable_cache", "writes_after_a_killed_write", "quiet_polls_after_a_failed_cache_write")
 	r.Rule("histories: initial fetch, lookups, polls with/without service changes (some with failing cache writes), shutdown; after every step the last payload must be a complete document of exactly the known names with their current version+bytes, a new store started from it with a dead service must serve the same, and NewFileClient must agree on non-empty secrets. Fuzz: documents mutated around the valid format (bit flips, truncations, token splices, nulls, wrong types, duplicate/empty keys, case variants, nesting, invalid UTF-8). Crash part: every system call of FileCache.Write as kill point and as error point. Distinct = (step kind, flush expected?), fuzz (mutation, class, sources used), crash (syscall, fault)")
 }
@@ -1101,9 +1102,115 @@ func retainingCaches(r *evid.Run) {
 			}
 			cache.refuse = false
 		}
+		st.Refresh(context.Background())
+		served := map[string]string{}
+		for _, n := range []string{"s", "t"} {
+			served[n] = string(st.Secret(n).Get())
+		}
 		st.Close()
+		// the same cache OBJECT is handed to the next incarnations (an in-memory cache shared by the components
+		// of a program that re-creates its store): starting from it does not use it up
+		for inc := 1; inc <= 2; inc++ {
+			held := string(cache.data)
+			dead := fakesvc.New()
+			dead.Behave = func(*fakesvc.Req) fakesvc.Behaviour { return fakesvc.Behaviour{Fail: errors.New("service unreachable")} }
+			ctx, cancel := context.WithTimeout(context.Background(), 2*time.Second)
+			st2, err := setec.NewStore(ctx, setec.StoreConfig{Client: dead, Secrets: []string{"s", "t"}, Cache: cache, PollInterval: -1, Logf: func(string, ...any) {}})
+			cancel()
+			r.Eval(1)
+			r.Count("restarts_on_a_retaining_cache", 1)
+			if err != nil {
+				r.Violation("restart-from-cache-fails", -1, fmt.Sprintf("incarnation %d on a cache object that keeps and hands out its own slice, service unreachable: %v; the cache held %.60q before this start and holds %.60q now", inc, err, held, cache.data), nil)
+				return
+			}
+			for n, want := range served {
+				if got := string(st2.Secret(n).Get()); got != want {
+					r.Violation("restart-serves-other-values", -1, fmt.Sprintf("incarnation %d from the retained cache serves %q for %q, the previous process served %q", inc, got, n, want), nil)
+				}
+			}
+			st2.Close()
+			if m, ok := wellFormed(cache.data); !ok || m["s"] == nil || m["t"] == nil {
+				r.Violation("payload-not-a-complete-document", -1, fmt.Sprintf("after incarnation %d merely STARTED from it, the retaining cache holds %.80q (before: %.80q)", inc, cache.data, held), nil)
+				return
+			}
+		}
 	}
 	r.Distinct("slice-retaining cache")
+}
+
+// partlyFailingPolls: a poll in which the check of ONE secret fails (it was deleted on the server, access to it
+// was revoked) while another secret has a new version. Whatever the store does with the new version - install it
+// or leave it for the next complete poll - the cache holds what the store serves: checked after every poll, and
+// by a restart from the cache with the service unreachable.
+func partlyFailingPolls(r *evid.Run) {
+	rng := r.Rand(151515)
+	for c, n := 0, r.N(40, 400); c < n; c++ {
+		svc := fakesvc.New()
+		names := []string{"p/a", "p/b", "p/c"}
+		ver := map[string]uint32{}
+		for _, nm := range names {
+			ver[nm] = 1
+			svc.Set(nm, 1, []byte(nm+"-version-1"))
+		}
+		failing := map[string]error{}
+		svc.Behave = func(q *fakesvc.Req) fakesvc.Behaviour {
+			if e := failing[q.Name]; e != nil {
+				return fakesvc.Behaviour{Fail: e, Plain: true}
+			}
+			return fakesvc.Behaviour{}
+		}
+		cache := &fakesvc.MonCache{}
+		st, err := setec.NewStore(context.Background(), setec.StoreConfig{Client: svc, Secrets: names, Cache: cache, PollInterval: -1, Logf: func(string, ...any) {}})
+		if err != nil {
+			r.Violation("newstore-fails", -1, err.Error(), nil)
+			return
+		}
+		for step := 0; step < 6; step++ {
+			for _, nm := range names {
+				delete(failing, nm)
+				switch rng.IntN(4) {
+				case 0:
+					failing[nm] = []error{api.ErrNotFound, api.ErrAccessDenied, errors.New("injected: connection reset")}[rng.IntN(3)]
+				case 1, 2:
+					ver[nm]++
+					svc.Set(nm, ver[nm], []byte(fmt.Sprintf("%s-version-%d", nm, ver[nm])))
+				}
+			}
+			perr := st.Refresh(context.Background())
+			r.Eval(1)
+			r.Count("polls_with_one_secret_failing", 1)
+			r.Distinct(fmt.Sprintf("partly failing poll, %d failing, reported=%t", len(failing), perr != nil))
+			doc, derr := decodePayload(cache.Last())
+			if derr != nil {
+				r.Violation("payload-not-a-complete-document", -1, derr.Error(), nil)
+				st.Close()
+				return
+			}
+			for _, nm := range names {
+				served := string(st.Secret(nm).Get())
+				e := doc[nm]
+				if e == nil || e.Secret == nil || string(e.Secret.Value) != served {
+					held := "nothing"
+					if e != nil && e.Secret != nil {
+						held = fmt.Sprintf("version %d %q", e.Secret.Version, e.Secret.Value)
+					}
+					r.Violation("store-serves-what-the-cache-lacks", -1, fmt.Sprintf("case %d step %d: a poll (checks failing for %v; it reported %v) has returned; the store serves %q for %q, the cache holds %s: a process restarted from the cache while the service is away would go back to a replaced version", c, step, keysOf(failing), perr, served, nm, held), nil)
+					st.Close()
+					return
+				}
+			}
+		}
+		st.Close()
+	}
+}
+
+func keysOf(m map[string]error) []string {
+	var out []string
+	for k := range m {
+		out = append(out, k)
+	}
+	sort.Strings(out)
+	return out
 }
 
 // failedStartUps: a start that never completes (one declared secret stays unavailable until the caller gives
